@@ -580,12 +580,7 @@ func checkInvalidHandling(c *Ctx, rule string) {
 				if f, isC := constFloat(r.Results[0]); !isC || f != 0 {
 					continue
 				}
-				rough := false
-				for _, ft := range dominatingFacts(r.Block()) {
-					if isRoughTest(ft.Cond) && ft.Val {
-						rough = true
-					}
-				}
+				rough := onEveryPath(r.Block(), func(ft EdgeFact) bool { return isRoughTest(ft.Cond) && ft.Val })
 				if !rough {
 					okAll = false
 					c.Fail(rule, "zero-only-when-rough-invalid("+key+")", r.Pos(), "refuted", key+" returns zero on a path that is not guarded by an invalid rough value: an invalid fine value must fall back to the rough value alone")
